@@ -42,6 +42,31 @@ def catching(fn, *a, **kw):
 # =============================================================== C03
 
 @replayer
+def c03_depth_case(depth, kind):
+    """a container nested `depth` levels deep (built and compared without recursion): if the encoder produces bytes for
+    it, the decoder reads exactly those bytes back, and re-encoding what it read gives the same bytes"""
+    v = 7
+    for i in range(depth):
+        v = [v] if (kind == 'array' or (kind == 'mixed' and i % 2)) else {'k': v}
+    k, b = catching(encode.encode_table_value, v)
+    if k != 'ok':
+        return None            # the encoder may refuse (RecursionError) - then nothing was sent
+    k2, r = catching(decode.embedded_value, b)
+    if k2 != 'ok' or r[0] != len(b):
+        return ('what the encoder produced at depth %d (%d bytes) decodes' % (depth, len(b)), repr(r)[:200])
+    k3, b3 = catching(encode.encode_table_value, r[1])
+    if k3 == 'ok' and b3 != b:
+        return ('re-encoding the decoded value gives the same %d bytes' % len(b), '%d bytes' % len(b3))
+    if kind != 'array':
+        k4, b4 = catching(frame.marshal, commands.Queue.Declare(queue='q', arguments=v if isinstance(v, dict) else {'a': v}), 1)
+        if k4 == 'ok':
+            k5, r5 = catching(frame.unmarshal, b4)
+            if k5 != 'ok' or r5[0] != len(b4):
+                return ('a Queue.Declare frame with arguments nested %d deep decodes' % depth, repr(r5)[:200])
+    return None
+
+
+@replayer
 def c03_case(v, legacy, junk):
     """-> None if the property holds on this value, else (expected, actual)"""
     with real.legacy(legacy):
@@ -99,6 +124,13 @@ def oracle_c03(ctx):
     t_ = ['a', 'b']
     vals += [{'x': t_, 'y': t_}, [t_, t_], [{'k': t_}, {'k': t_}]]
     g.exotic = False
+    for depth in ([8, 32, 64, 100, 150, 200, 250, 300, 330, 360, 400, 430, 460, 480] if ctx.thorough else [8, 64, 150, 250, 330, 400, 460]):
+        for kind in ('array', 'table', 'mixed'):
+            res.case('depth %d %s' % (depth, kind), tag='nesting depth')
+            k, bad = catching(c03_depth_case, depth, kind)
+            if k != 'ok' or bad:
+                res.violation('nesting depth %d (%s)' % (depth, kind), {'fn': 'c03_depth_case', 'args': pyrepr((depth, kind))},
+                              bad[0] if k == 'ok' else 'oracle runs', bad[1] if k == 'ok' else repr(bad))
     # every kind of scalar under every name a broker or client library gives a meaning to, and under keys that
     # mean something to a formatting step
     kinds = [60000.0, 60000, 1.5, True, '60000', D('60000'), D('6E+4'), 0.0, -0.0, 3000000000.0, float(2 ** 63), None,
@@ -297,6 +329,13 @@ def oracle_c01(ctx):
                 bad = c01_case(meta['key'], vals, 1, False, b'')
                 if bad:
                     res.violation('%s round trip' % meta['name'], {'fn': 'c01_case', 'args': pyrepr((meta['key'], vals, 1, False, b''))}, bad[0], bad[1])
+    for depth in (64, 150, 250, 330, 400, 460):      # "arbitrary nested tables": whatever depth the encoder accepts
+        for kind in ('table', 'mixed'):
+            res.case('depth %d %s' % (depth, kind), tag='nesting depth')
+            k, bad = catching(c03_depth_case, depth, kind)
+            if k != 'ok' or bad:
+                res.violation('table argument nested %d deep (%s)' % (depth, kind), {'fn': 'c03_depth_case', 'args': pyrepr((depth, kind))},
+                              bad[0] if k == 'ok' else 'oracle runs', bad[1] if k == 'ok' else repr(bad))
     env_snapshots(res, 'rt')
     reps = 10 if ctx.thorough else 2
     for meta in metas:
@@ -855,6 +894,60 @@ def c06_stream_case(datas, tail):
     return None
 
 
+@replayer
+def c06_buffer_case(datas):
+    """a stream of BODY and HEARTBEAT frames (the kinds the decoder reads from any bytes-like buffer; frames with strings
+    or tables need `bytes`) held the ways a receive loop holds it: (a) one big buffer walked with memoryview windows
+    view[pos:], (b) a bytearray shortened in place with `del buf[:consumed]` after every frame, (c) a bytearray that is
+    overwritten once a frame was taken from it. Every frame decodes as it does from its own bytes, and a frame already
+    handed out does not change when the buffer does"""
+    def show(r):
+        f = r[2]
+        return (r[0], r[1], type(f).__name__, bytes(f.value) if isinstance(f, body.ContentBody) else None)
+    want = []
+    for d in datas:
+        k, r = catching(frame.unmarshal, d)
+        if k != 'ok' or not isinstance(r[2], (body.ContentBody, heartbeat.Heartbeat)):
+            return None
+        want.append(show(r))
+    whole = b''.join(datas)
+    for backing in (b'\xee\xee\xee' + whole + b'\xee', bytearray(b'\xee\xee\xee' + whole + b'\xee')):
+        view = memoryview(backing)[3:]
+        pos = 0
+        for i, d in enumerate(datas):
+            k, r = catching(frame.unmarshal, view[pos:])
+            if k != 'ok' or show(r) != want[i]:
+                return ('frame %d from a memoryview window at offset %d: %r' % (i, pos, want[i][:3]), show(r)[:3] if k == 'ok' else repr(r))
+            pos += r[0]
+    buf = bytearray(whole)
+    got = []
+    for i, d in enumerate(datas):
+        k, r = catching(frame.unmarshal, buf)
+        if k != 'ok':
+            return ('frame %d decodes from the bytearray' % i, repr(r))
+        got.append(r)
+        try:
+            del buf[:r[0]]
+        except BufferError as e:
+            return ('the receive buffer can be shortened after frame %d was taken from it' % i, repr(e))
+    if len(buf) != 0:
+        return ('an empty buffer at the end', len(buf))
+    for (r, w) in zip(got, want):
+        if show(r) != w:
+            return (w[:3], show(r)[:3])
+    buf = bytearray(whole)
+    k, r = catching(frame.unmarshal, buf)
+    if k == 'ok':
+        before = show(r)
+        try:
+            buf[:] = b'\x00' * len(buf)
+        except BufferError as e:
+            return ('the receive buffer can be refilled in place after a frame was taken from it', repr(e))
+        if show(r) != before:
+            return ('a decoded frame keeps its content when the receive buffer is refilled', repr(show(r))[:160])
+    return None
+
+
 def oracle_c06(ctx):
     res = Result('c06.stream')
     g = ctx.gen
@@ -876,6 +969,20 @@ def oracle_c06(ctx):
         if kk != 'ok' or bad:
             res.violation('stream of %d frames' % k, {'fn': 'c06_stream_case', 'args': pyrepr((datas, tail))},
                           bad[0] if kk == 'ok' else 'decodes', bad[1] if kk == 'ok' else repr(bad))
+    for i in range(300 if ctx.thorough else 60):
+        k = g.r.choice([1, 2, 3, 6])
+        datas = []
+        for _ in range(k):
+            if g.r.random() < 0.25:
+                datas.append(b'\x08\x00\x00\x00\x00\x00\x00\xce')
+            else:
+                content = g.r.choice([bytes(g.r.getrandbits(8) for _ in range(g.r.choice([0, 1, 30, 300]))), b'\xce' * 9, b'AMQP\x00\x00\x09\x01', b'\x08\x00\x00\x00\x00\x00\x00\xce'])
+                datas.append(frame.marshal(body.ContentBody(content), g.r.choice([0, 1, 65535])))
+        res.case('buffers ' + b''.join(datas).hex()[:3000], tag='buffer kinds')
+        kk, bad = catching(c06_buffer_case, datas)
+        if kk != 'ok' or bad:
+            res.violation('stream held in a memoryview / bytearray', {'fn': 'c06_buffer_case', 'args': pyrepr((datas,))},
+                          bad[0] if kk == 'ok' else 'oracle runs', bad[1] if kk == 'ok' else repr(bad))
     # envelope clause on arbitrary inputs on which decoding succeeds
     for i in range(20000 if ctx.thorough else 4000):
         f, ch, b = g.r.choice(frames)
@@ -3242,7 +3349,108 @@ def c16_trace_case(kind, arg, legacy):
     return None
 
 
+def _tb_len(e):
+    n, tb = 0, e.__traceback__
+    while tb is not None:
+        n += 1
+        tb = tb.tb_next
+    return n
+
+
+@replayer
+def c16_failures_case(kind, arg):
+    """two failing calls hand out two separate exception objects: the second one knows nothing of the first (no shared
+    identity, traceback, context, notes), and keeps no reference to the first call's input"""
+    import gc
+    import weakref
+    def call():
+        try:
+            if kind == 'unmarshal':
+                frame.unmarshal(bytes(arg))
+            elif kind == 'encvalue':
+                encode.encode_table_value(arg)
+            elif kind == 'decvalue':
+                decode.embedded_value(bytes(arg))
+            else:
+                frame.marshal(arg, 1)
+        except Exception as e:  # noqa
+            return e
+        return None
+    e1 = call()
+    if e1 is None:
+        return None
+    d1 = _tb_len(e1)
+    try:
+        e1.add_note('verif note')
+    except Exception:  # noqa
+        pass
+    try:
+        raise KeyError('an unrelated error being handled')
+    except KeyError:
+        e_ctx = call()
+    e2 = call()
+    e3 = call()
+    if e2 is None or e3 is None:
+        return ('fails every time', 'succeeded later')
+    if e2 is e1 or e3 is e2 or e_ctx is e1:
+        return ('a new exception object for every failure', 'the same object was raised again')
+    if type(e2) is not type(e1) or repr(e2.args) != repr(e1.args):
+        return ((type(e1).__name__, e1.args), (type(e2).__name__, e2.args))
+    if _tb_len(e2) != d1 or _tb_len(e3) != d1:
+        return ('traceback of %d entries each time' % d1, (_tb_len(e2), _tb_len(e3)))
+    c_ = e2.__context__
+    seen_ = 0
+    while c_ is not None and seen_ < 20:
+        if isinstance(c_, KeyError) and c_.args == ('an unrelated error being handled',):
+            return ('no stale __context__ from an earlier failure', repr(c_))
+        c_ = c_.__context__
+        seen_ += 1
+    if getattr(e2, '__notes__', None):
+        return ('no notes from an earlier failure', e2.__notes__)
+    return None
+
+
 def c16_traces(ctx, res):
+    C = commands
+    fails = [('unmarshal', b'\x01\x00\x01\x00\x00\x00\x10\x00'), ('unmarshal', b'\x01\x00\x01\x00\x00'), ('unmarshal', b'\x08\x00\x00\x00\x00\x00\x00\x00'),
+             ('unmarshal', b'\x03\x00\x01\x00\x00\x00\x01ab'), ('unmarshal', b'\x01\x00\x01\x00\x00\x00\x04\xff\xff\xff\xff\xce'),
+             ('unmarshal', b'AMQP\x00'), ('unmarshal', b''), ('encvalue', 2 ** 70), ('encvalue', b'raw'), ('encvalue', {'k': object()}), ('decvalue', b'Z'),
+             ('decvalue', b'S\x00\x00\x00\x09ab'), ('marshal', object())]
+    for kind, arg in fails:
+        res.case('failures %s %r' % (kind, arg if not isinstance(arg, dict) else 'dict'), tag='separate failures')
+        if isinstance(arg, (dict,)) or type(arg) is object:
+            k, bad = catching(c16_failures_case, kind, arg)
+            rep = {'fn': 'none', 'args': '()'}
+        else:
+            k, bad = catching(c16_failures_case, kind, arg)
+            rep = {'fn': 'c16_failures_case', 'args': pyrepr((kind, arg))}
+        if k != 'ok' or bad:
+            res.violation('two failing %s calls share state through their exception' % kind, rep, bad[0] if k == 'ok' else 'oracle runs', bad[1] if k == 'ok' else repr(bad))
+    # the interpreter's warning machinery is process state too: library calls leave it as they found it
+    import warnings as _w
+    filters_before = list(_w.filters)
+    rec = frame.marshal(C.Basic.Recover(True), 1)
+    rec_async = b'\x01\x00\x01\x00\x00\x00\x05\x00\x3c\x00\x64\x01\xce'
+    def worker():
+        for _ in range(150):
+            catching(frame.unmarshal, rec_async)
+            catching(frame.unmarshal, rec)
+            catching(C.Basic.RecoverAsync)
+    ths = [threading.Thread(target=worker) for _ in range(6)]
+    sw = sys.getswitchinterval()
+    sys.setswitchinterval(1e-6)
+    try:
+        for t in ths:
+            t.start()
+        for t in ths:
+            t.join()
+    finally:
+        sys.setswitchinterval(sw)
+    res.case('warning filters after concurrent decodes', tag='warnings state')
+    if list(_w.filters) != filters_before:
+        res.violation('library calls from several threads changed the process-wide warning filters',
+                      {'fn': 'none', 'args': '()'}, repr(filters_before)[:300], repr(list(_w.filters))[:300])
+        _w.filters[:] = filters_before
     g = ctx.gen
     C = commands
     n = 0
